@@ -25,6 +25,16 @@ import typing as T
 BUILTIN = 'warning_level'
 BUILTIN_CHOICES = ['0', '1', '2', '3', 'everything']
 BUILTIN_DEFAULT = '1'
+# the subprojects of the tree (set by the harness): any number; options of different projects may share a name
+SUBS: T.List[str] = ['sub']
+
+
+def proj_of(key: str) -> str:
+    return key.partition(':')[0]
+
+
+def name_of(key: str) -> str:
+    return key.partition(':')[2]
 
 
 def canon(v: T.Any) -> str:
@@ -76,7 +86,7 @@ class State:
     def __init__(self) -> None:
         self.configured = False
         self.corrupt = False                    # coredata.dat damaged: the next --reconfigure regenerates from the records
-        self.spec: T.Dict[str, dict] = {}       # 'top:n' / 'sub:n' -> spec the option was last (re)read with
+        self.spec: T.Dict[str, dict] = {}       # 'top:n' / '<subproject>:n' -> spec the option was last (re)read with
         self.val: T.Dict[str, str] = {}         # own value of every existing project option
         self.override: T.Dict[str, str] = {}    # 'sub:n' -> value set for the subproject only (yielding option / builtin)
         self.inherits: T.Dict[str, bool] = {}   # 'sub:n' -> option was created as inheriting from 'top:n'
@@ -96,41 +106,44 @@ class State:
         for k, v in self.val.items():
             if k in self.override:
                 eff[k] = self.override[k]
-            elif self.inherits.get(k) and ('top:' + k[4:]) in self.val:
-                eff[k] = self.val['top:' + k[4:]]
+            elif self.inherits.get(k) and ('top:' + name_of(k)) in self.val:
+                eff[k] = self.val['top:' + name_of(k)]
             else:
                 eff[k] = v
         eff['top:' + BUILTIN] = self.wl
-        eff['sub:' + BUILTIN] = self.override.get('sub:' + BUILTIN, self.wl)
+        for p in SUBS:
+            eff[p + ':' + BUILTIN] = self.override.get(p + ':' + BUILTIN, self.wl)
         return eff
 
 
 def user_key(k: str) -> str:
     """command-line key -> state key"""
-    return k if k.startswith('sub:') else 'top:' + k
+    return k if ':' in k else 'top:' + k
 
 
 def create(st: State, key: str, sp: dict) -> None:
     st.spec[key] = sp
     st.val[key] = canon(sp['d'])
     st.override.pop(key, None)
-    par = 'top:' + key[4:]
-    st.inherits[key] = bool(key.startswith('sub:') and sp.get('y') and par in st.spec and st.spec[par]['t'] == sp['t'])
+    par = 'top:' + name_of(key)
+    st.inherits[key] = bool(proj_of(key) != 'top' and sp.get('y') and par in st.spec and st.spec[par]['t'] == sp['t'])
 
 
 def vanish(st: State, key: str) -> None:
     for d in (st.spec, st.val, st.override, st.inherits):
         d.pop(key, None)
-    if key.startswith('top:') and st.inherits.get('sub:' + key[4:]):
+    if proj_of(key) == 'top':
         # an option inherits from the parent it was created under; when that parent vanishes it has its own value
         # (and does not start to inherit from a parent that is declared again later)
-        st.inherits['sub:' + key[4:]] = False
+        for p in SUBS:
+            if st.inherits.get(p + ':' + name_of(key)):
+                st.inherits[p + ':' + name_of(key)] = False
 
 
 def sync(st: State, files: T.Dict[str, T.Dict[str, dict]]) -> State:
     """the build directory re-reads the option files"""
     st = st.copy()
-    for proj in ('top', 'sub'):
+    for proj in ['top'] + SUBS:
         cur = files[proj]
         for n, sp in cur.items():
             key = proj + ':' + n
@@ -147,9 +160,10 @@ def sync(st: State, files: T.Dict[str, T.Dict[str, dict]]) -> State:
                     st.val[key] = canon(sp['d'])
                 if key in st.override and validate(sp, st.override[key]) is None:
                     st.override[key] = canon(sp['d'])      # "otherwise falls back to the new default"
-                if proj == 'top' and ('sub:' + n) in st.spec and st.inherits.get('sub:' + n):
-                    st.parent_replaced.add('sub:' + n)
-                if proj == 'sub' and st.inherits.get(key):
+                for p in SUBS:
+                    if proj == 'top' and (p + ':' + n) in st.spec and st.inherits.get(p + ':' + n):
+                        st.parent_replaced.add(p + ':' + n)
+                if proj != 'top' and st.inherits.get(key):
                     st.child_replaced.add(key)
             else:
                 st.spec[key] = sp          # a changed default alone changes no value
@@ -164,7 +178,7 @@ def apply_d(st: State, dargs: T.List[T.List[str]], uargs: T.List[str], lenient: 
     st = st.copy()
     dargs = [x for x in dargs if x[0] not in uargs]     # one dict on the command line: a later -U k replaces -D k=v
     for k, raw in dargs:
-        if k == BUILTIN or k == 'sub:' + BUILTIN:
+        if k == BUILTIN or (name_of(k) == BUILTIN and proj_of(k) in SUBS):
             if raw not in BUILTIN_CHOICES:
                 if lenient:
                     continue
@@ -185,13 +199,13 @@ def apply_d(st: State, dargs: T.List[T.List[str]], uargs: T.List[str], lenient: 
             if lenient:
                 continue
             return None
-        if key.startswith('sub:') and st.inherits.get(key):
+        if proj_of(key) != 'top' and st.inherits.get(key):
             st.override[key] = v
         st.val[key] = v
         st.rec[k] = raw
     for k in uargs:
-        key = k if k.startswith('sub:') else None
-        if key is None or (key != 'sub:' + BUILTIN and key not in st.spec):
+        key = k if ':' in k and proj_of(k) in SUBS else None
+        if key is None or (name_of(key) != BUILTIN and key not in st.spec):
             return None
         st.override.pop(key, None)
         st.rec.pop(k, None)
